@@ -20,3 +20,26 @@ type WALEntryObserver interface {
 	// This method is called after the fsync operation has completed successfully.
 	OnWALSync(upToSeq uint64)
 }
+
+// WALRotationObserver is implemented by observers that keep a reference to the WAL they
+// observe (to read entries back from it): on a log rotation they are told which WAL object
+// replaces it.
+type WALRotationObserver interface {
+	// OnWALRotated is called before the new WAL takes its first write.
+	OnWALRotated(next *WAL)
+}
+
+// HandOverObservers registers the observers of this WAL with the WAL that replaces it
+// (log rotation), so that they keep being notified, and tells those that implement
+// WALRotationObserver about the new object.
+func (w *WAL) HandOverObservers(next *WAL) {
+	w.observersMu.RLock()
+	defer w.observersMu.RUnlock()
+
+	for id, observer := range w.observers {
+		next.RegisterObserver(id, observer)
+		if r, ok := observer.(WALRotationObserver); ok {
+			r.OnWALRotated(next)
+		}
+	}
+}
